@@ -357,7 +357,8 @@ def check(ctx: Ctx) -> list[RuleResult]:
     wr = repo.func(f"{F}.WantRply.pkt_rcvd")
     NULL0418 = "000000B0000000000000000000007FFFFF7000000000"
     try:
-        tab = PredEval(ctx, wr, domains={"self._sent_cmd.rx_header[:8]": ["0418|RP|"], "pkt.payload": [NULL0418]}).table()
+        hgi0 = ctx.const("ramses_tx.address", "HGI_DEVICE_ID")
+        tab = PredEval(ctx, wr, domains={"self._sent_cmd.rx_header[:8]": ["0418|RP|"], "pkt.payload": [NULL0418], "self._sent_cmd.src.id": [hgi0]}).table()
     except Unsupported as err:
         raise AnalysisError(f"WantRply.pkt_rcvd is not a decision procedure the evaluator understands: {err}") from err
 
@@ -392,13 +393,33 @@ def check(ctx: Ctx) -> list[RuleResult]:
         r5.ok({"accepted_only": "header == rx_header | 0418 null-entry (headers equal up to the idx, literal null payload)", "rows": len(rows)})
     r5.instances += 1
     r5.nontrivial += 1
-    lost = [a for a, _r in rows if not accepted(a) and (hdr_equal(a) or (is_null_entry(a) and not hdr_equal(a))) and not (echo is not None and a[echo])]
+    dst_atoms0 = [a for a in tab.atoms if "pkt.dst" in a and "==" in a and ("src" in a or "hgi_id" in a)]
+
+    def addressed(a: dict) -> bool:  # where the addressee is tested at all, a proper reply is one addressed to the sender
+        if not dst_atoms0:
+            return True
+        lit = [k for k in dst_atoms0 if "src" in k]
+        real = [k for k in dst_atoms0 if "hgi_id" in k]
+        return any(a.get(k) for k in lit) or (a.get("self._sent_cmd.src.id") == hgi0 and any(a.get(k) for k in real))
+
+    lost = [a for a, _r in rows if not accepted(a) and addressed(a) and (hdr_equal(a) or (is_null_entry(a) and not hdr_equal(a))) and not (echo is not None and a[echo])]
     if lost:
         a0 = lost[0]
         what = "the reply whose header equals rx_header" if hdr_equal(a0) else "the 0418 null-entry reply (sent for a log_idx beyond the end of the log)"
         r5.fail(f"{wr.short}:proper-reply-ignored:{'header-equal' if hdr_equal(a0) else '0418-null-entry'}", wr.loc(), f"{what} is not accepted: the command is retried and fails although the device answered: " + tab.describe({k: v for k, v in a0.items() if k != "__effects__"})[:300])
     else:
         r5.ok({"always_accepted": "header == rx_header; the 0418 null-entry", "rows": len(rows)})
+    # sibling agreement (WantEcho's early-reply branch vs WantRply): a reply is addressed to the command's sender. WantEcho tests
+    # `pkt.dst.id == cmd.src.id` (or the gateway's real id for the placeholder); the rows of WantRply's table in which a packet is
+    # accepted must have such a test true as well - else the same header sent to another requester is taken for our reply
+    r5.instances += 1
+    r5.nontrivial += 1
+    dst_atoms = [a for a in tab.atoms if "pkt.dst" in a and "==" in a and ("src" in a or "hgi_id" in a)]
+    unaddressed = [a for a, _r in rows if accepted(a) and not (dst_atoms and addressed(a))]
+    if unaddressed:
+        r5.fail(f"{wr.short}:reply-addressee-not-tested", wr.loc(), "a packet with the reply header is accepted as the reply whoever it is addressed to (WantEcho's early-reply branch requires pkt.dst to be the command's sender): the controller's answer to another requester of the same code/zone is returned to this caller: " + tab.describe({k: v for k, v in unaddressed[0].items() if k != "__effects__"})[:200])
+    else:
+        r5.ok({"accepted_rows_test_the_addressee": dst_atoms[:2]})
     # the same for a reply that overtakes the echo (WantEcho): it is taken as the reply exactly when its header equals the reply
     # header and it is addressed to the command's sender - either literally, or (command built with the 18:000730 placeholder) to
     # the gateway's real id. Read off the decision table of WantEcho.pkt_rcvd.
